@@ -127,7 +127,17 @@ def helpers(run: Run, rt):
         if fn is None:
             run.bad('C12.R1', f'_sum_if[{cp.label}]', 'missing', 'runtime helper _sum_if is missing', loc=cp.path)
         else:
-            _sum_if(run, cp, fn)
+            try:
+                _sum_if(run, cp, fn)
+                structural = True
+            except AnalysisError as e_:
+                run.note(f'C12 _sum_if[{cp.label}]: structural reading gave up ({e_.reason[:80]}); decided by evaluation')
+                structural = False
+            try:
+                _sum_if_eval(run, cp, fn)
+            except AnalysisError:
+                if not structural:
+                    raise
 
 
 def _ifs_helper(run: Run, cp, fn):
@@ -484,6 +494,34 @@ def _sentinel_test(t, var):
 
 def _is_truthiness(t, var):
     return isinstance(t, ast.Name) and t.id == var
+
+
+def _sum_if_eval(run: Run, cp, fn):
+    """SUMIF decided by abstract evaluation (engine F) on small concrete ranges: position i is added exactly when the criterion
+    accepts the i-th cell of the range and the target has an i-th cell; blanks / None in the target add 0"""
+    from ..finite import Evaluator, AV, const_av, Unknown, AbsRaise
+
+    def lst(xs):
+        return AV('list', items=tuple(lst(x) if isinstance(x, list) else (x if isinstance(x, AV) else const_av(x)) for x in xs))
+    gt4 = AV('func', val=('native', lambda a: const_av(isinstance(a[0].val, (int, float)) and not isinstance(a[0].val, bool) and a[0].val > 4)))
+    blank = AV('blank', sign='zero')
+    cases = [([1, 5, 7], [10, 20, 30], 50, 'aligned ranges'), ([1, 5, 7], [10, 20], 20, 'target shorter than the range'),
+             ([5, 1, 7], [10, 20, 30, 40], 40, 'target longer than the range'), ([[1, 5], [7, 9]], [[10, 20], [30, 40]], 90, 'matrices'),
+             ([1, 2, 3], [10, 20, 30], 0, 'nothing accepted'), ([5, 6, 7], [10, blank, 30], 40, 'blank in the target'),
+             ([5, 6], [None, 20], 20, 'None in the target'), ([7, 1, 8, 2], [1, 2, 4, 8], 5, 'positions 1 and 3')]
+    for rng, tgt, want, what in cases:
+        construct = f'_sum_if[{cp.label}]/{what}'
+        ev = Evaluator(cp.members, max_depth=10)
+        try:
+            res = ev.call_method('_sum_if', [lst(rng), gt4, lst(tgt)])
+        except Unknown as u:
+            raise AnalysisError('C12.R2', f'{construct}: the abstraction cannot follow the helper ({u})')
+        except AbsRaise as r_:
+            run.bad('C12.R2', construct, f'raises:{r_.exc}', f'_sum_if raises {r_.exc} ({what})', loc=cp.loc(fn))
+            continue
+        run.check(res.val == want, 'C12.R2', construct, 'wrong-positions',
+                  f'SUMIF over {rng} with the criterion ">4" and the target {[getattr(x, "kind", x) if isinstance(x, AV) else x for x in tgt] if not isinstance(tgt[0], list) else tgt} '
+                  f'({what}) gives {res.val!r}; the aligned accepted positions add up to {want}', fact=f'-> {res.val!r}', loc=cp.loc(fn))
 
 
 def _sum_if(run: Run, cp, fn):
